@@ -931,7 +931,7 @@ def r23_enumerate_map_join(text):
 @rule('R24')
 def r24_string_add(text):
     """A.to_string() + B   ->   vt_string_add(A.to_string(), B)      (`impl Add<&str> for String` = push_str)"""
-    pat = re.compile(r'("(?:[^"\\]|\\.)*"|%s(?:\.%s)*)\.to_string\(\) \+ (%s(?:\.%s)*)' % (IDENT, IDENT, IDENT, IDENT))
+    pat = re.compile(r'("(?:[^"\\]|\\.)*"|%s(?:\.%s)*)\.to_string\(\) \+ ("(?:[^"\\]|\\.)*"|%s(?:\.%s)*)' % (IDENT, IDENT, IDENT, IDENT))
     return pat.subn(lambda m: 'vt_string_add(%s.to_string(), %s)' % (m.group(1), m.group(2)), text)
 
 
